@@ -155,14 +155,15 @@ Fixpoint parse (j : jv) : pt :=
   | _ => PBad
   end.
 
-(* the data object a deserialisation step yields for item.get("data"):
-   without a mapper the raw value itself (KeyError when the key is missing,
-   an unhashable value is a data object with [i_hash = -1]); with a mapper
-   whatever the mapper builds from it.  Both are instances of [dd].       *)
-Definition dmapper := option jv -> res info.
+(* the data object a deserialisation step yields for an item dict: without a
+   mapper item["data"] itself (KeyError when the key is missing; an unhashable
+   value is a data object with [i_hash = -1]); with a mapper whatever the mapper
+   builds from the item – it may read any entry (the mappers of the pinned suite
+   read "type", "name", "data_id").  Both are instances of [dd].          *)
+Definition dmapper := jdict -> res info.
 
 Definition dd_raw (raw : jv -> res info) : dmapper :=
-  fun o => match o with None => inr E_KEY | Some v => raw v end.
+  fun d => match dget k_data d with None => inr E_KEY | Some v => raw v end.
 
 (* data_id=item.get("data_id"): None -> tree.calc_data_id(data), which raises
    for unhashable data (or when the hook raises) *)
@@ -190,7 +191,7 @@ Section FromDict.
     match p with
     | PBad => inr E_TYPE
     | PT d kids =>
-        match dd (dget k_data d) with
+        match dd d with
         | inr e => inr e
         | inl i0 =>
             match did_for calc (dget k_data_id d) i0 with
